@@ -66,8 +66,10 @@ func (w *world) submit(src, topic string, data []byte, expect string) string {
 			continue
 		}
 		label := rule
-		if rule == "slot-window" && p != nil && p.slot() >= 1<<60 {
-			label = "slot-window-overflow" // slot so large that slot x 12 s wraps around: a different root cause
+		if rule == "slot-window" && p != nil && p.slot() >= 1<<60 && kind != "partial" {
+			// slot so large that slot x 12 s wraps around: a different root cause (repaired by f763c0541 for
+			// consensus messages; partial-signature messages have no slot window at all, whatever the slot)
+			label = "slot-window-overflow"
 		}
 		inv, sig := "accept-implies-rules", label+"/"+kind
 		if expect == rule || expect == "*" {
